@@ -1641,6 +1641,15 @@ bool SchindelhauerTMCG::TMCG_VerifyStackEquality
 			in >> ss;
 			if (!in.good())
 				throw false;
+			// check the dimensions of the received stack secret
+			if (ss.size() != s.size())
+				throw false;
+			for (size_t j = 0; j < ss.size(); j++)
+			{
+				if ((ss[j].second.r.size() != TMCG_Players) ||
+					(ss[j].second.r[0].size() != TMCG_TypeBits))
+						throw false;
+			}
 			// verify equality proof
 			if (mpz_get_ui(foo) & 1UL)
 				TMCG_MixStack(s2, s4, ss, ring, false);
@@ -1720,6 +1729,9 @@ bool SchindelhauerTMCG::TMCG_VerifyStackEquality
 			// receive equality proof (response)
 			in >> ss;
 			if (!in.good())
+				throw false;
+			// check the size of the received stack secret
+			if (ss.size() != s.size())
 				throw false;
 			// verify equality proof
 			if (mpz_get_ui(foo) & 1UL)
